@@ -142,6 +142,11 @@ def step (line : String) : String :=
     | some (some (.res p)), some (some (.res q)), some st =>
       showR (fun l => "[" ++ ",".intercalate (l.map showPeriod) ++ "]") (periodsFromUntil p q st)
     | _, _, _ => "bad-op"
+  | ["dir", a, b, st] => match endpoint? a, endpoint? b, st.toInt? with   -- Span.direction of the span and of its reversed() copy
+    | some a, some b, some st =>
+      let d : Span → String := fun s => if s.direction then "forward" else "backward"
+      showR (fun s => d s ++ " " ++ d s.reverse) (Span.make a b st)
+    | _, _, _ => "bad-op"
   | ["sfs", a, b, lag, lead] =>   -- spans_from_short_span on the first and last period
     match endpoint? a, endpoint? b, lag.toInt?, lead.toInt? with
     | some (some (.res p)), some (some (.res q)), some lag, some lead =>
